@@ -12,7 +12,9 @@
   Timestamp[min,max] (timestamptype.go) is inside the model since the extension round: `Ty.tstamp r` / `Val.tstamp n`, instants counted in
   nanoseconds since 0001-01-01T00:00:00Z (time.Time's own epoch; `tstampAll` = [MinTime, MaxTime] is the default type, which — like the code —
   does NOT reach instants before year 1).
-  Not modelled (second tier; harness-side predicates only, labelled as tests): Callable, Runtime, Iterator, Like, Init,
+  Iterator[T] (iteratortype.go) is inside the model too: `Ty.iterator t`, a covariant wrapper on the type level (assignability, Equals,
+  Generic, the `commonType` arm); its values (px.IteratorValue) are not part of the value language, so `inst (.iterator _) v = false`.
+  Not modelled (second tier; harness-side predicates only, labelled as tests): Callable, Runtime, Like, Init,
   TypeReference, SemVer, SemVerRange, URI, TypeSet, the Pcore::* meta types as type terms, user-defined
   recursive aliases.  Non-recursive user aliases are expanded by the harness encoder.  The two built-in recursive aliases
   `Data` and `RichData` are constructors with direct recursive definitions.
@@ -104,6 +106,7 @@ inductive Ty where
   | struct (ms : List (String × Bool × Ty))       -- name, key is Optional[..], value type
   | variant (ts : List Ty)
   | optional (t : Ty) | notUndef (t : Ty) | typ (t : Ty) | sensitive (t : Ty) | iterable (t : Ty)
+  | iterator (t : Ty)                     -- Iterator[T] (iteratortype.go); its values (px.IteratorValue) are outside the value language
   | object (p : Option (List Nat))        -- none = default Object; some path = user object type by ancestor path
   deriving Repr, Inhabited
 
@@ -140,7 +143,7 @@ def Ty.w : Ty → Nat
   | .struct ms => 2 + Ty.wm ms
   | .variant ts => 2 + Ty.wl ts
   | .optional t => 2 + t.w | .notUndef t => 2 + t.w
-  | .typ t => 2 + t.w | .sensitive t => 2 + t.w | .iterable t => 2 + t.w
+  | .typ t => 2 + t.w | .sensitive t => 2 + t.w | .iterable t => 2 + t.w | .iterator t => 2 + t.w
   | _ => 1
 def Ty.wl : List Ty → Nat
   | [] => 0
@@ -196,6 +199,7 @@ def Ty.beq : Ty → Ty → Bool
   | .notUndef t, .notUndef t' => Ty.beq t t'
   | .typ t, .typ t' => Ty.beq t t'
   | .sensitive t, .sensitive t' => Ty.beq t t'
+  | .iterator t, .iterator t' => Ty.beq t t'
   | .iterable t, .iterable t' => Ty.beq t t'
   | .object p, .object p' => p == p'
   | _, _ => false
